@@ -55,6 +55,14 @@ type BatchInit interface {
 	InitBatch(c *Ctx, batch int)
 }
 
+// CorpusReplayer is implemented by properties that replay a committed input corpus (distilled by the
+// coverage-guided campaigns) after their generated cases: entry k of a batch is case index Plan.Cases+k, so
+// crash attribution (b<i>.cur) and --replay work for corpus entries exactly as for generated cases.
+type CorpusReplayer interface {
+	CorpusLen(c *Ctx, batch int) int
+	RunCorpusEntry(c *Ctx, batch, k int)
+}
+
 // BatchFinish is implemented by properties that check something at the end of a batch.
 type BatchFinish interface {
 	FinishBatch(c *Ctx, batch int)
@@ -134,6 +142,34 @@ type Ctx struct {
 	caseDesc  func() any
 	muted     bool // deviations of prefix cases during a replay are not reported
 	maxSample int
+	keepDevs  bool // standalone contexts (fuzz targets, corpus tools) keep deviations in memory
+	devs      []Deviation
+}
+
+// NewStandaloneCtx returns a context that is not attached to a batch child: counters work, deviations are
+// kept in memory and handed out by TakeDeviations. Used by the coverage-guided fuzz targets (fuzzc), which
+// run the same per-input monitors as the checks.
+func NewStandaloneCtx(prop string) *Ctx {
+	return &Ctx{PropID: prop, Tier: "fuzz", counters: map[string]int64{}, hashes: map[uint64]struct{}{}, sigCounts: map[string]int64{}, keepDevs: true}
+}
+
+// TakeDeviations returns and clears the deviations a standalone context collected.
+func (c *Ctx) TakeDeviations() []Deviation {
+	c.mu.Lock()
+	defer c.mu.Unlock()
+	d := c.devs
+	c.devs = nil
+	for k := range c.sigCounts {
+		delete(c.sigCounts, k)
+	}
+	return d
+}
+
+// Counter reads a counter (standalone contexts).
+func (c *Ctx) Counter(name string) int64 {
+	c.mu.Lock()
+	defer c.mu.Unlock()
+	return c.counters[name]
 }
 
 func (c *Ctx) Count(name string, n int64) {
@@ -221,6 +257,9 @@ func (c *Ctx) Deviate(sig, detail string) {
 				d.Case = b
 			}
 		}()
+	}
+	if c.keepDevs {
+		c.devs = append(c.devs, d)
 	}
 	b, _ := json.Marshal(d)
 	if c.devFile != nil {
@@ -336,6 +375,10 @@ func RunWorker(a WorkerArgs) int {
 		}
 	}
 	lo, hi := 0, plan.Cases
+	cr, _ := p.(CorpusReplayer)
+	if cr != nil {
+		hi += cr.CorpusLen(c, a.Batch)
+	}
 	if a.Only >= 0 {
 		lo, hi = a.Only, a.Only+1
 		if pr, ok := p.(PrefixReplayer); ok && pr.ReplayNeedsPrefix() {
@@ -353,7 +396,11 @@ func RunWorker(a WorkerArgs) int {
 			c.curFile.WriteAt(cur[:], 0)
 		}
 		rng := NewRNG(caseSeed(a.Prop, a.Tier, a.Seed, a.Batch, i))
-		c.Guard("uncaught", func() { p.RunCase(c, rng, a.Batch, i) })
+		if i >= plan.Cases && cr != nil {
+			c.Guard("uncaught-corpus", func() { cr.RunCorpusEntry(c, a.Batch, i-plan.Cases) })
+		} else {
+			c.Guard("uncaught", func() { p.RunCase(c, rng, a.Batch, i) })
+		}
 		done++
 	}
 	if a.Only < 0 {
